@@ -222,7 +222,10 @@ class Grid(object):
         if (time is None):
             list_of_files = glob(
                 "{0}/{1}_*".format(foldername, nameConvention))
-            filename = max(list_of_files)
+            # The latest checkpoint is the one with the largest time (the
+            # names are only ordered like the times up to 6 digits)
+            filename = max(list_of_files,
+                           key=lambda f: int(f.split('_')[-1].split('.')[0]))
         else:
             filename = "{0}/{1}_{2:06}.h5".format(
                 foldername, nameConvention, time)
